@@ -250,7 +250,14 @@ func runC19(args []string) int {
 		w := gw.wrap(list, levels)
 		_, frBase := addForest(base, "bare-rule-list")
 		_, frWrap := addForest(w.Text, fmt.Sprintf("wrapper-levels-%d", levels))
-		a := c19Shift(c19Rules(frBase), w.LineShift, w.ColShift)
+		// expected: the direct rules of mixed-sequence frames (outermost first: a sequence yields its own rules before the
+		// nested ones), then the rules of the bare list, everything displaced by the wrapper
+		var a []c19Rule
+		for _, d := range w.Direct {
+			fd, _ := parseReal([]byte("- record: "+d.Name+"\n  expr: "+d.Expr+"\n"), false, schema, names)
+			a = append(a, c19Shift(c19Rules(fd), w.LineShift+d.RelLine, w.ColShift+d.RelCol)...)
+		}
+		a = append(a, c19Shift(c19Rules(frBase), w.LineShift, w.ColShift)...)
 		b := c19Rules(frWrap)
 		rep.hist("wrapper:" + fmt.Sprint(levels))
 		if ok, why := c19Equal(a, b); !ok {
